@@ -466,6 +466,47 @@ def check_segment_kinds(chk, tu):
         chk.expect(len(results[kind][1]) == 1, 'R08.5', 'kind%d:accepted' % kind,
                    'data segment kind %d: %d successful paths of %d' % (kind, len(results[kind][1]), len(results[kind][0])), site)
     chk.expect(len(results[3][1]) == 0, 'R08.5', 'kind3:rejected', 'data segment kind 3 is accepted', site)
+    # flag 2 with memory index 0 must be accepted exactly like flag 0, whether memory 0 is defined or imported
+    for variant in ('defined', 'imported'):
+        recs = {}
+        for kind in (0, 2):
+            def setup2(kind=kind, variant=variant):
+                toks = [('u32', kind)] + ([('u32', 0)] if kind == 2 else [])
+                st = {'stream': emit.Stream(toks)}
+                res = {'v': {'memoryIndex': unk('old-mem'), 'offset': unk('old-off'), 'bytes': unk('old-bytes'), 'passive': unk('old-passive')}}
+                err = {'v': unk('old-error')}
+                it2 = setup2.it
+                mod = it2.zero_init('struct WasmModule')
+                if variant == 'defined':
+                    mod['memories'] = {'memories': Ptr([{'min': 1, 'max': 2, 'shared': 0}], 0), 'count': 1}
+                else:
+                    mod['memoryImports'] = {'length': 1, 'capacity': 1, 'imports': Ptr([{'module': 'env', 'name': 'memory', 'min': 1, 'max': 2, 'shared': 0}], 0)}
+                rd = {'v': {'buffer': {'data': unk('data'), 'length': unk('len')}, 'module': Ptr({'m': mod}, 'm'), 'debug': 0}}
+                st.update(res=res, err=err, rd=rd)
+                return (fname, [Ptr(rd, 'v'), Ptr(res, 'v'), Ptr(err, 'v')], st)
+
+            def const_expr2(interp, args, node):
+                b = interp.load(args[0].c, args[0].k)
+                b['length'] = Sym('-', (b['length'], unk('exprlen')), 'unsigned long')
+                return 1
+
+            def read_bytes2(interp, args, node):
+                interp.store(args[1].c, args[1].k, {'data': unk('bytes-data'), 'length': unk('bytes-len')})
+                return 1
+            leafs = dict(emit.stream_leafs(lambda interp: interp.path.state['stream']))
+            leafs.update({'wasmReadConstantExpr': const_expr2, 'wasmReadBytes': read_bytes2})
+            it2 = pe.Interp([tu], leafs)
+            it2.loop_abort = True
+            setup2.it = it2
+            try:
+                ps = [p for p in it2.explore(setup2) if not p.aborted]
+            except emit.ScriptMismatch:
+                ps = []
+            recs[kind] = [p.state['res']['v'] for p in ps if p.state['err']['v'] == 0]
+        ok = len(recs[0]) == 1 and len(recs[2]) == 1 and all(repr(recs[0][0][k]) == repr(recs[2][0][k]) for k in ('memoryIndex', 'offset', 'bytes', 'passive'))
+        chk.expect(ok, 'R08.5', 'kind2-memory0-equals-kind0:' + variant,
+                   'with a %s memory 0, a data segment written with flag 2 and memory index 0 gives %r while flag 0 gives %r: the two spec-equivalent '
+                   'encodings must be accepted alike and decode to the same segment' % (variant, recs[2] or 'a reader error', recs[0] or 'a reader error'), site)
     if all(len(results[k][1]) == 1 for k in (0, 1, 2)):
         r0 = results[0][1][0]
         r2 = results[2][1][0]
